@@ -325,6 +325,17 @@ def build(tier='quick'):
         'newtype with a lifetime parameter')
     add('generic-bounds', 'full', PRE + '#[nutype(derive(Debug, Clone, PartialEq, PartialOrd), validate(predicate = |v| !v.is_empty()), sanitize(with = |mut v| { v.sort(); v }))]\npub struct W<T: Ord>(Vec<T>);\n', True,
         'generic newtype with a bound, sanitizer and validator')
+    # ---- two bounds on the same side (`greater` next to `greater_or_equal`, `less` next to `less_or_equal`) cannot both be
+    # "the" bound: refused whether they are literals or expressions, in either order
+    for fam, lo, hi in (('int', ('5', 'K'), ('90', 'K * 20')), ('float', ('0.5', 'KF'), ('90.0', 'KF * 20.0'))):
+        for (k1, k2, vals) in (('greater', 'greater_or_equal', lo), ('less', 'less_or_equal', hi)):
+            for a in vals:
+                for b in vals:
+                    for order in ((k1, k2), (k2, k1)):
+                        other = 'less = 1000' if k1 == 'greater' else 'greater = -1000'
+                        attr = f'validate({order[0]} = {a}, {order[1]} = {b}, {other})'
+                        add(f'same-side-{fam}-{order[0]}-{a}-{order[1]}-{b}'.replace(' ', '').replace('*', 'x'), 'full', decl_src(fam, attr), False,
+                            f'{fam}: `{attr}` bounds the same side twice')
     # ---- the user's module defines items named like things the templates mention (not prelude names: those cannot be
     # shadowed without breaking every derive): a crate-local `Result` alias and `Error` type are common in real crates.
     # The templates must keep naming theirs by full path.
